@@ -1,27 +1,51 @@
-"""Turns the output of tools/seed_eval.sh into seeded/RESULTS.json and a markdown table (appendix H of DESIGN.md)."""
+"""Turns the output of tools/seed_eval.sh (one or more log files) into seeded/RESULTS.json and seeded/RESULTS.md
+(the tables of appendix H of DESIGN.md).  Later lines for the same seed/check replace earlier ones (re-runs)."""
 import json
 import os
 import re
 import sys
 
-log = sys.argv[1]
-rows = []
-for line in open(log):
-    m = re.match(r'seed=(C\d+)/(\d+) check=(C\d+) exit=(\d+) violations=(\d+)\s*(.*)', line.strip())
-    if m:
-        pid, k, chk, rc, nv, ob = m.groups()
-        rows.append(dict(seed=f'{pid}/{k}', check=chk, exit=int(rc), violations=int(nv), first_obligation=ob.strip()))
-json.dump(rows, open('/verif/seeded/RESULTS.json', 'w'), indent=1)
-verdict = {0: 'MISSED (exit 0)', 1: 'caught', 2: 'undecided (exit 2)', 3: 'checker crash'}
-out = ['| seed | files changed | own check | obligation reported first |', '|---|---|---|---|']
+HERE = os.path.dirname(os.path.dirname(os.path.abspath(__file__)))
+rows = {}
+for log in sys.argv[1:]:
+    for line in open(log):
+        m = re.match(r'seed=(C\d+)/(\d+) check=(C\d+) exit=(\d+)(?: violations=(\d+))?\s*(.*)', line.strip())
+        if m:
+            pid, k, chk, rc, nv, ob = m.groups()
+            rows[(pid, int(k), chk)] = dict(seed=f'{pid}/{k}', check=chk, exit=int(rc), violations=int(nv or 0),
+                                            first_obligation=ob.strip(), log=os.path.basename(os.path.dirname(log)) or log)
+rows = [rows[k] for k in sorted(rows)]
+json.dump(rows, open(f'{HERE}/seeded/RESULTS.json', 'w'), indent=1)
+verdict = {0: 'MISSED (exit 0)', 1: 'caught', 2: 'undecided (exit 2)', 3: 'checker crash (exit 3)'}
+
+
+def round_of(meta):
+    m = re.match(r'round (\d+)', meta.get('origin', ''))
+    return int(m.group(1)) if m else 1
+
+
+out, by_round = [], {}
 for r in rows:
     pid, k = r['seed'].split('/')
     if r['check'] != pid:
         continue
-    meta = json.load(open(f'/verif/seeded/{pid}/{k}/meta.json'))
-    files = ', '.join(os.path.basename(f) for f in meta['files'])
-    ob = re.sub(r'^obligation ', '', r['first_obligation'])
-    ob = ob.split(' (')[0]
-    out.append(f"| {r['seed']}{' (ported)' if meta.get('ported') else ''} | {files} | {verdict[r['exit']]} ({r['violations']}) | `{ob}` |")
-open('/verif/seeded/RESULTS.md', 'w').write('\n'.join(out) + '\n')
-print('\n'.join(out))
+    meta = json.load(open(f'{HERE}/seeded/{pid}/{k}/meta.json'))
+    by_round.setdefault(round_of(meta), []).append((r, meta))
+for rnd in sorted(by_round):
+    lst = by_round[rnd]
+    cnt = {}
+    for r, _ in lst:
+        cnt[r['exit']] = cnt.get(r['exit'], 0) + 1
+    title = 'rounds 1-2' if rnd == 1 else f'round {rnd}'
+    out.append(f'**{title}: {len(lst)} changes — ' + ', '.join(f'{cnt[e]} {verdict[e]}' for e in sorted(cnt, key=lambda e: (e != 1, e))) + '**')
+    out.append('')
+    out += ['| seed | files changed | own check | obligation reported first |', '|---|---|---|---|']
+    for r, meta in lst:
+        files = ', '.join(sorted({os.path.basename(f) for f in meta['files']}))
+        ob = re.sub(r'^obligation ', '', r['first_obligation']).split(' (')[0]
+        if ob.startswith('UNDECIDED'):
+            ob = ob[:110]
+        out.append(f"| {r['seed']}{' (ported)' if meta.get('ported') else ''} | {files} | {verdict[r['exit']]} | `{ob}` |")
+    out.append('')
+open(f'{HERE}/seeded/RESULTS.md', 'w').write('\n'.join(out) + '\n')
+print('\n'.join(l for l in out if l.startswith('**')))
